@@ -639,7 +639,7 @@ def decode_utf8(b):
 _FRESH = [0]
 
 
-def render_int(x: SymInt, maxdigits=19):
+def render_int(x: SymInt, maxdigits=45):
     """decimal text of a symbolic int: forks on sign and digit count; the digits are fresh solver variables d_k in [0,9]
     defined by |x| == sum d_k * 10^k (every integer has exactly one such representation with the forked digit count, so the
     definition neither loses nor adds values; it avoids bit-vector division)"""
@@ -665,9 +665,12 @@ def render_int(x: SymInt, maxdigits=19):
         DIGIT_OF[cell.e.get_id()] = (cell.e, d)
         cells.append(cell)
     ex.add((a == total).e)
+    RENDERED[tuple(c.e.get_id() for c in cells)] = (tuple(c.e for c in cells), a)
     return norm(SymStr(([45] if neg else []) + cells))
 
 
+HEXPAIR = {}  # ids of the two hex-digit cells rendered from one byte -> (terms, byte)
+RENDERED = {}  # ids of all digit cells of one rendering -> (terms, magnitude): int() of exactly that digit string is the magnitude
 DIGIT_OF = {}  # term id of a rendered digit cell -> (term, digit value): lets int() recover the digit without arithmetic
 
 
@@ -678,7 +681,12 @@ def parse_int(s, base=10):
         return int(s.concrete(), base)
     if base not in (10, 16):
         raise Unsupported(f"int(text, {base})")
+    if base == 16 and len(s.cps) == 2 and not any(isinstance(c, int) for c in s.cps):
+        hp = HEXPAIR.get((s.cps[0].e.get_id(), s.cps[1].e.get_id()))
+        if hp is not None and hp[0][0].eq(s.cps[0].e) and hp[0][1].eq(s.cps[1].e):
+            return SymInt(hp[1].e, max(0, hp[1].lo), min(255, hp[1].hi))  # exactly the two digits rendered from this byte (a byte: the renderer checked 0 <= v < 256)
     kinds = []
+    provenance = []
     for c in s.cps:
         if isinstance(c, int):
             ch = chr(c)
@@ -702,6 +710,7 @@ def parse_int(s, base=10):
         prov = DIGIT_OF.get(c.e.get_id())
         if prov is not None and prov[0].eq(c.e):
             kinds.append(("d", prov[1]))  # c was built as digit + 48
+            provenance.append(c.e)
         elif _b(in_ranges(c, [(48, 57)])):
             kinds.append(("d", SymInt((c - 48).e, 0, 9)))  # the branch just taken bounds the digit value
         elif base == 16 and _b(in_ranges(c, [(65, 70)])):
@@ -745,6 +754,9 @@ def parse_int(s, base=10):
     if not kinds or kinds[0][0] != "d" or kinds[-1][0] != "d":
         raise err
     acc, prev = 0, None
+    whole = RENDERED.get(tuple(t.get_id() for t in provenance)) if base == 10 and provenance and len(provenance) == len(kinds) else None
+    if whole is not None and all(x.eq(y) for x, y in zip(whole[0], provenance)):
+        return sign * whole[1]  # exactly the digit string of one rendered value: its magnitude (defined by the digits) is the result
     for k, v in kinds:
         if k == "d":
             acc = acc * base + v
@@ -801,9 +813,11 @@ def _h_format(v, spec):
             def hexd(n):
                 n = SymInt.lift(n)
                 e = n.ext(9)
-                return SymInt(z3.If(e < 10, e + 48, e + lo), 48, 102)
+                return SymInt(z3.If(e < 10, e + 48, e + lo), 48, 70 if lo == 55 else 102)
 
-            return SymStr([hexd(v >> 4), hexd(v & 15)])
+            hi_, lo_ = hexd(v >> 4), hexd(v & 15)
+            HEXPAIR[(hi_.e.get_id(), lo_.e.get_id())] = ((hi_.e, lo_.e), v)
+            return SymStr([hi_, lo_])
         raise Unsupported(f"format spec {spec!r} on symbolic int")
     return NotImplemented
 
